@@ -12,5 +12,5 @@ echo "== demo WITH change"; (cd $WT && go test -mod=mod -vet=off -count=1 -run '
 echo "== suite WITH change (demo moved aside)"; mv $WT/$DEMO /tmp/demo_aside.go; (cd $WT && go test -mod=mod -vet=off -count=1 ./... 2>&1 | grep -v "no test files" | tail -8); mv /tmp/demo_aside.go $WT/$DEMO
 echo "== demo WITHOUT change"; (cd $WT && git apply -R $D/patch.diff && go test -mod=mod -vet=off -count=1 -run 'Demo|demo' $PKG 2>&1 | tail -3; git apply $D/patch.diff)
 echo "== check against the change"
-git -C /repo apply $D/patch.diff && (cd /verif && timeout 1500 ./check $P > $D/check.out 2>&1; echo "exit=$?" >> $D/check.out); git -C /repo checkout -- . ; cat $D/check.out | tail -5
+if git -C /repo apply $D/patch.diff; then (cd /verif && timeout 1500 ./check $P > $D/check.out 2>&1; echo "exit=$?" >> $D/check.out); else echo "PATCH DOES NOT APPLY to /repo's current tree: port it" > $D/check.out; fi; git -C /repo checkout -- . ; cat $D/check.out | tail -5
 echo "demo=$DEMO"
